@@ -65,7 +65,7 @@ def rule_cache(rep: Report, cu: CUnit) -> None:
     fname = 'run_paged_loop_impl'
     seen_uses = 0
     for ring in (0, 1):
-        L = CLoop(cu, fname, M.ROLES_C[fname], {'with_ring': ring})
+        L = CLoop(cu, fname, M.ROLES_C[fname], {'with_ring': ring, '__split_conditions__': 1})       # one test node per && / || operand
         g = L.g
         env = L.env
 
@@ -327,6 +327,27 @@ def _first_access_is_helper(cu: CUnit, g: Graph, start: int, helpers: Set[str]) 
 
 # ---------------------------------------------------------------- C07.SENTINEL
 
+def _sentinel_semantics(ir: lx.IR, var: str, SENT: int, MAGIC: int) -> Optional[str]:
+    """is this expression the width's garbage test of `var` - w <= 32: bit 63 set; else: equal to the magic - however it is spelled
+    (`(v & S) != 0`, `v >> 63`, a ternary or an if chain folded into one expression)? Folded on a grid of widths and values.
+    -> None when it is, else the first disagreement."""
+    all_syms = lx.syms(ir)
+    others = sorted(x for x in all_syms if x != var and not any(y.startswith(x + '.') for y in all_syms))      # `m` of `m.w` is not an operand
+    widths = [x for x in others if x.split('.')[-1] in ('w', 'width')]
+    if len(widths) != 1 or len(others) != 1:
+        return f'unexpected operands {others}'
+    for wv in (8, 16, 32, 64):
+        for val in (0, 5, 1 << 63, (1 << 63) | 5, MAGIC, MAGIC ^ 1, MAGIC & ~(1 << 63), (1 << 64) - 1):
+            try:
+                got = bool(lx.eval_ir(ir, {var: val, widths[0]: wv}))
+            except lx.Unrecognised as ex:
+                return str(ex)
+            want = bool(val >> 63 & 1) if wv <= 32 else (val == MAGIC)
+            if got != want:
+                return f'w={wv} value={val:#x}: {got} (reference {want})'
+    return None
+
+
 def _sentinel_shape(ir: lx.IR, cu: CUnit, var: Optional[str] = None) -> Optional[Tuple[str, int, int, int]]:
     """cond(W <= T, (v & S) != 0, v == MAGIC) -> (v, T, S, MAGIC)"""
     if ir[0] != 'cond':
@@ -353,10 +374,11 @@ def rule_sentinel(rep: Report, cu: CUnit) -> None:
     MAGIC = cu.macro_int('FLAT_GARBAGE_MAGIC')
     rep.check(SENT == 1 << 63, 'C07.SENTINEL', 'GARBAGE_SENTINEL', hex(SENT), cu.rel, expected='bit 63 (values of w<=32 never set it)')
     # flat_is_garbage
-    ret = [n for n in walk(cu.body('flat_is_garbage')) if n.get('kind') == 'ReturnStmt']
-    sh = _sentinel_shape(c_ir(ret[0]['inner'][0], cu.src_of), cu) if ret else None
-    rep.check(sh is not None and sh[1:] == (32, SENT, MAGIC) and sh[0] == 'value', 'C07.SENTINEL', 'flat_is_garbage',
-              f'{sh}', cu.site(cu.func('flat_is_garbage')), expected=f'(w<=32) ? value & bit63 : value == magic')
+    fig = lx.c_fn_value_ir(cu.body('flat_is_garbage'), cu.src_of)
+    vparam = cu.params('flat_is_garbage')[-1]
+    why = _sentinel_semantics(fig, vparam, SENT, MAGIC) if fig is not None else 'the body is not a pure expression'
+    rep.check(why is None, 'C07.SENTINEL', 'flat_is_garbage', 'bit 63 for w <= 32, the magic otherwise (32 grid cases)' if why is None else why,
+              cu.site(cu.func('flat_is_garbage')), expected=f'(w<=32) ? value & bit63 : value == magic')
     # fill in mem_decide_storage
     fill = None
     fl = _locate_fill(cu)
@@ -423,6 +445,10 @@ def _next_is_sentinel_test(cu: CUnit, g: Graph, nid: int, var: str, SENT: int, M
     sh = _sentinel_shape(ir, cu)
     if sh is not None:
         return (sh == (var, 32, SENT, MAGIC)), f'inline test {sh}'
+    if ir[0] in ('cond', 'cmp', 'bin') and var in lx.syms(ir):
+        why = _sentinel_semantics(ir, var, SENT, MAGIC)
+        if why is None:
+            return True, 'inline test (folded on a grid of widths and values)'
     # flat_is_garbage(self, var) [&& flat_garbage_check(...)]
     first = lx.conjuncts(ir)[0]
     if first[0] == 'call' and lx.show(first[1]) == 'flat_is_garbage' and len(first[2]) == 2 and lx.show(first[2][1]) == var:
@@ -433,9 +459,12 @@ def _next_is_sentinel_test(cu: CUnit, g: Graph, nid: int, var: str, SENT: int, M
         val = lx.c_fn_value_ir(cu.body(pname), cu.src_of)
         params = cu.params(pname)
         if val is not None and len(params) == len(first[2]):
-            sh = _sentinel_shape(lx.ir_subst(val, dict(zip(params, first[2]))), cu)
+            whole = lx.ir_subst(val, dict(zip(params, first[2])))
+            sh = _sentinel_shape(whole, cu)
             if sh is not None:
                 return (sh == (var, 32, SENT, MAGIC)), f'{pname}(..) = inline test {sh}'
+            if var in lx.syms(whole) and _sentinel_semantics(whole, var, SENT, MAGIC) is None:
+                return True, f'{pname}(..) is the sentinel test (folded on a grid)'
     return False, f'next test is {cu.src_of(nxt.ast)[:80]}'
 
 
@@ -632,20 +661,34 @@ def rule_mode(rep: Report, cu: CUnit, repo: Repo) -> None:
     fname = 'Memory_run'
     g = build_c_cfg(cu, fname)
     IN = path_conditions(g, g.entry, c_assigned, c_mentions)
+    # (bool_form reads `x == 0` as the negated truthiness atom of x, `p != NULL` / `p` as the truthiness atom of p)
+    no_ring = ('not', ('atom', 'last_ops_length'))
+    flat_no_ring = ('and', [('atom', 'self.flat'), no_ring])
+    measured = ('and', [('atom', 'measure_speculation'), ('atom', "'1' == measure_speculation[0]"), no_ring])
     want = {
-        'run_measured_loop': {'measure_speculation && measure_speculation[0] == \'1\' && last_ops_length == 0:T'},
-        dispatcher_of(cu, 'run_flat_loop_impl'): {'self->flat && last_ops_length == 0:T'},
-        dispatcher_of(cu, 'run_paged_loop_impl'): {'self->flat && last_ops_length == 0:F'},
+        'run_measured_loop': ('measured', measured),
+        dispatcher_of(cu, 'run_flat_loop_impl'): ('flat and no ring', flat_no_ring),
+        dispatcher_of(cu, 'run_paged_loop_impl'): ('not (flat and no ring)', ('not', flat_no_ring)),
     }
     found = set()
     for node in g.nodes:
         if not isinstance(node.ast, dict) or node.kind not in ('stmt', 'cond'):
             continue
         for c in [x for x in walk(node.ast) if x.get('kind') == 'CallExpr' and callee(x) in want]:
-            conds = {cu.src_of(g.nodes[nid].ast) + ':' + pol for nid, pol in (IN.get(node.id) or frozenset())}
+            facts = []
+            shown = []
+            for nid, pol in (IN.get(node.id) or frozenset()):
+                f_ = lx.bool_form(c_ir(g.nodes[nid].ast, cu.src_of))
+                facts.append(f_ if pol == 'T' else ('not', f_))
+                shown.append(cu.src_of(g.nodes[nid].ast) + ':' + pol)
             found.add(callee(c))
-            rep.check(want[callee(c)] <= conds, 'C07.MODE', f'Memory_run:{callee(c)}', f'selected under {sorted(conds)}',
-                      cu.site(c, fname), expected=str(sorted(want[callee(c)])))
+            label, goal = want[callee(c)]
+            try:
+                okm = lx.bf_implies(facts, goal)
+            except lx.Unrecognised:
+                okm = False
+            rep.check(okm, 'C07.MODE', f'Memory_run:{callee(c)}', f'selected under {sorted(shown)}',
+                      cu.site(c, fname), expected=label)
     if found != set(want):
         raise AnalysisError(f'Memory_run: loop dispatch sites missing: {set(want) - found}')
     # ring allocated iff last_ops_length > 0
@@ -657,10 +700,34 @@ def rule_mode(rep: Report, cu: CUnit, repo: Repo) -> None:
             ring_ok = 'last_ops_length > 0:T' in conds
     rep.check(ring_ok, 'C07.MODE', 'Memory_run:ring-allocation', 'ring allocated exactly when last_ops_length > 0',
               cu.site(cu.func(fname)))
-    ret = [n for n in walk(cu.body('Memory_get_storage_mode')) if n.get('kind') == 'CallExpr' and callee(n) == 'PyUnicode_FromString']
-    txt = cu.src_of(call_args(ret[0])[0]) if ret else ''
-    rep.check(txt == 'self->flat ? (self->flat_covers_all ? "flat" : "hybrid") : "paged"', 'C07.MODE', 'storage_mode',
-              txt, cu.site(cu.func('Memory_get_storage_mode')))
+    # storage_mode: the string reported for each (flat allocated?, covers all?) - a nested ternary or an if chain of returns, read
+    # as one expression after the "not decided yet" guard and folded for the four cases
+    smb = cu.body('Memory_get_storage_mode')
+    stmts_ = [x for x in smb.get('inner', []) if isinstance(x, dict)]
+    # drop the leading guard that returns None while storage is undecided
+    tail = [x for x in stmts_ if not (x.get('kind') == 'IfStmt' and 'storage_decided' in cu.src_of(x['inner'][0]))
+            and x.get('kind') not in ('DeclStmt',) and 'closure' not in cu.src_of(x)]
+    val = lx.c_fn_value_ir({'kind': 'CompoundStmt', 'inner': tail}, cu.src_of)
+
+    def leaf_string(e: Any, env: Dict[str, int]) -> Optional[str]:
+        if e[0] == 'cond':
+            try:
+                return leaf_string(e[2] if lx.eval_ir(e[1], env) else e[3], env)
+            except lx.Unrecognised:
+                return None
+        if e[0] == 'call' and 'PyUnicode_FromString' in lx.show(e[1]) and len(e[2]) == 1:
+            return leaf_string(e[2][0], env)
+        if e[0] == 'other':
+            return str(e[1]).strip('"')
+        return None
+    table = {}
+    if val is not None:
+        for fl in (0, 1):
+            for cov in (0, 1):
+                table[(fl, cov)] = leaf_string(val, {'self.flat': fl, 'self.flat_covers_all': cov})
+    want_t = {(0, 0): 'paged', (0, 1): 'paged', (1, 0): 'hybrid', (1, 1): 'flat'}
+    rep.check(table == want_t, 'C07.MODE', 'storage_mode', str(table) if val is not None else 'the getter is not a pure expression after its guard',
+              cu.site(cu.func('Memory_get_storage_mode')), expected='no flat array -> paged; flat covering every segment -> flat; else hybrid')
     fn = repo.func(RUN_REL, '_run_native')
     kw = [norm(k.value) for c in ast.walk(fn) if isinstance(c, ast.Call) and dotted(c.func) == 'core.run'
           for k in c.keywords if k.arg == 'last_ops_length']
